@@ -1,8 +1,275 @@
-// Package c08: stub (property not built yet).
 package c08
 
-import "verifharness/hk"
+import (
+	"fmt"
+	"hash/fnv"
+	"strings"
 
-func NewExec() func(w []string) string { return func([]string) string { return "bad-op" } }
+	"verifharness/hk"
+)
 
-func Run(r *hk.Run) { r.Note("not built yet") }
+var allSorts = []string{"unspec", "unsorted", "-mod", "mod", "-created", "created", "blobref", "map"}
+
+type runner struct {
+	r *hk.Run
+	b *B
+}
+
+func newCase(r *hk.Run, label string) *runner {
+	r.Case(label)
+	return &runner{r: r, b: NewB(func(line, out string) { r.Op(line, out) })}
+}
+
+func hash(s string) string {
+	h := fnv.New64a()
+	h.Write([]byte(s))
+	return fmt.Sprintf("%016x", h.Sum64())
+}
+
+// one query: execute on the real code, then judge the answer by the documented meaning.
+// It returns the failure signature ("" = the answer is what the documentation says).
+func (c *runner) query(sortName string, limit int, cons *Cons, class string) string {
+	r, b := c.r, c.b
+	line, out, got, src, errText := b.Q(sortName, limit, cons)
+	r.Hit("sort:" + sortName)
+	if src != "" {
+		r.Hit("src:" + src)
+	}
+	fail := func(sig, detail, expected string) string {
+		r.Fail(sig, detail, expected, trunc(out, 300), r.CaseOps())
+		return sig
+	}
+	valid := ValidTop(cons)
+	if out == "invalid" || !valid {
+		r.Hit("outcome:invalid")
+		if valid {
+			return fail("valid-constraint-rejected", line, "a result")
+		}
+		if out != "invalid" {
+			return fail("invalid-constraint-accepted", line, "invalid")
+		}
+		return ""
+	}
+	if ContainsMisuse(cons) {
+		r.Hit("oracle-skip:contains-not-of-a-documented-shape")
+		return ""
+	}
+	e := b.MW.Expect(sortName, limit, cons)
+	if e.Unsupported {
+		r.Hit("outcome:unsupported-sort")
+		if out != "err" {
+			return fail("unsupported-sort-accepted", line, "err")
+		}
+		return ""
+	}
+	if class == "nonconstant" {
+		r.Distinct(hash(cons.Words()) + "|" + sortName + "|" + fmt.Sprint(limit) + "|" + fmt.Sprint(len(b.MW.Blobs), len(b.MW.Claims)))
+	}
+	sortedSrc := src == "corpus_permanode_created" || src == "corpus_permanode_lastmod"
+	claimless := func(refs []string) bool {
+		for _, m := range refs {
+			if !b.MW.HasClaims(m) {
+				return true
+			}
+		}
+		return false
+	}
+	if !strings.HasPrefix(out, "ok ") {
+		r.Hit("outcome:" + out)
+		sig := "unexplained-" + out
+		switch {
+		case strings.Contains(errText, "no ctime or modtime found") && e.Sort == "created" && claimless(e.Matching):
+			sig = "createdasc-timeless-permanode-error"
+		case errText == "file does not exist" && HasRelation(cons) && b.MW.Dangling():
+			sig = "relation-dangling-target-error"
+		}
+		return fail(sig, line+" error="+errText, fmt.Sprintf("%d results", len(e.Matching)))
+	}
+	r.Hit("outcome:ok")
+	kind, detail := b.MW.Check(e, got)
+	if kind == "" {
+		return ""
+	}
+	sig := "unexplained-" + kind
+	switch {
+	case sortedSrc && func() bool {
+		// is the answer right for the world without its deleted and claim-less permanodes?
+		e2 := e
+		e2.Matching = nil
+		for _, m := range e.Matching {
+			if b.MW.HasClaims(m) && !b.MW.IsDeleted(m) {
+				e2.Matching = append(e2.Matching, m)
+			}
+		}
+		k2, _ := b.MW.Check(e2, got)
+		return k2 == ""
+	}():
+		sig = "sorted-source-omits-deleted-or-timeless"
+	case kind == "dup":
+	case RContainsSiblings(cons):
+		sig = "recursivecontains-reapplies-dir-fields"
+	case ScratchRisk(cons):
+		sig = "valueinset-scratch-overwrite"
+	}
+	return fail(sig, line+" "+kind+" "+detail, strings.Join(e.Matching, ","))
+}
+
+func trunc(s string, n int) string {
+	if len(s) > n {
+		return s[:n] + "…"
+	}
+	return s
+}
+
+var fake0 = "sha224-" + strings.Repeat("0", 56)
+
+// probes re-executes the witness of every finding of the property, each in a case of its own
+// (so the model is compared on them too).
+func probes(r *hk.Run) {
+	pnOnly := func(x *Cons) *Cons { return &Cons{Op: "and", A: &Cons{Camli: "permanode"}, B: x} }
+	tag := func(v string) *Cons { return &Cons{Pn: &PermC{Attr: "tag", Value: v}} }
+	ntype := func(v string) *Cons { return &Cons{Pn: &PermC{Attr: "camliNodeType", Value: v}} }
+	{
+		c := newCase(r, "probe F-C08-1 or with an untyped branch")
+		a, b := c.b.PN("a"), c.b.PN("b")
+		c.b.Claim(a, "add", "tag", "x", 1400000001)
+		c.b.Claim(b, "set", "camliNodeType", "tb", 1400000002)
+		sig := c.query("unsorted", -1, pnOnly(&Cons{Op: "or", A: tag("x"), B: ntype("tb")}), "nonconstant")
+		r.Probe("F-C08-1", sig != "", "or(tag=x, camliNodeType=tb): "+sig)
+	}
+	{
+		c := newCase(r, "probe F-C08-2 duplicates through node-type sets")
+		a := c.b.PN("a")
+		c.b.Claim(a, "set", "camliNodeType", "ta", 1400000001)
+		c.b.Claim(a, "set", "camliNodeType", "tb", 1400000002)
+		s1 := c.query("unsorted", -1, pnOnly(&Cons{Op: "or", A: ntype("ta"), B: ntype("tb")}), "nonconstant")
+		s2 := c.query("blobref", -1, pnOnly(&Cons{Op: "or", A: ntype("tb"), B: ntype("tb")}), "nonconstant")
+		r.Probe("F-C08-2", s1 != "" || s2 != "", "or over two node-type sets / the same type twice: "+s1+" "+s2)
+	}
+	{
+		c := newCase(r, "probe F-C08-3/4 deleted and claim-less permanodes")
+		a, _, d := c.b.PN("a"), c.b.PN("b"), c.b.PN("c")
+		c.b.Claim(a, "add", "tag", "x", 1400000001)
+		c.b.Claim(d, "add", "tag", "x", 1400000002)
+		c.b.Delete(d, 1400000003)
+		all := &Cons{Camli: "permanode"}
+		s0 := c.query("unsorted", -1, all, "nonconstant")
+		s1 := c.query("-created", -1, all, "nonconstant")
+		s2 := c.query("-mod", -1, all, "nonconstant")
+		r.Probe("F-C08-3", s0 == "" && (s1 != "" || s2 != ""), "camliType=permanode sorted by -created / -mod vs unsorted: "+s1+" "+s2)
+		s3 := c.query("created", -1, all, "nonconstant")
+		r.Probe("F-C08-4", s3 != "", "camliType=permanode sorted by created: "+s3)
+	}
+	{
+		c := newCase(r, "probe F-C08-5 scratch slice")
+		p1, p2, p3 := c.b.PN("a"), c.b.PN("b"), c.b.PN("c")
+		c.b.Claim(p1, "add", "camliMember", p2, 1400000001)
+		c.b.Claim(p1, "add", "camliMember", p3, 1400000002)
+		c.b.Claim(p2, "add", "tag", "y", 1400000003)
+		c.b.Claim(p2, "add", "tag", "z", 1400000004)
+		c.b.Claim(p3, "add", "tag", "x", 1400000005)
+		sig := c.query("unsorted", -1, &Cons{Pn: &PermC{Attr: "camliMember", InSet: tag("x")}}, "nonconstant")
+		r.Probe("F-C08-5", sig != "", "camliMember valueInSet tag=x, first member has two tags: "+sig)
+	}
+	{
+		c := newCase(r, "probe F-C08-6 dangling relation target")
+		p1, p2 := c.b.PN("a"), c.b.PN("b")
+		c.b.Claim(p1, "add", "camliMember", fake0, 1400000001)
+		c.b.Claim(p2, "add", "camliMember", p1, 1400000002)
+		sig := c.query("unsorted", -1, &Cons{Pn: &PermC{Rel: &RelC{Relation: "child", Any: &Cons{Camli: "permanode"}}}}, "nonconstant")
+		r.Probe("F-C08-6", sig != "", "relation child any camliType=permanode with a dangling camliMember elsewhere: "+sig)
+	}
+	{
+		c := newCase(r, "probe F-C08-7 recursiveContains")
+		by := c.b.Bytes("hello world")
+		f := c.b.File("a.txt", by, 1300000000, "text/plain")
+		sub := c.b.Dir("sub", []string{f})
+		c.b.Dir("top", []string{sub})
+		sig := c.query("unsorted", -1, &Cons{Dir: &DirC{Name: &StrC{Equals: "top"}, RContains: &Cons{File: &FileC{Name: &StrC{Equals: "a.txt"}}}}}, "nonconstant")
+		r.Probe("F-C08-7", sig != "", "dir fileName=top recursiveContains file a.txt two levels down: "+sig)
+	}
+}
+
+func malformed(r *hk.Run) {
+	c := newCase(r, "malformed ops")
+	b := c.b
+	p := b.PN("m1")
+	b.Claim(p, "add", "tag", "x", 1400000001)
+	lines := []string{
+		"", "q", "q unsorted", "q unsorted -1", "q bogus -1 c - 1 - 0 - - - - -", "q unsorted x c - 1 - 0 - - - - -",
+		"q unsorted -1 nil", "q unsorted -1 c - 1 - 0 - - - -", "q unsorted -1 c - 1 - 0 - - - - - extra",
+		"q unsorted -1 c and nil nil 0 - 0 - - - - -", "q unsorted -1 c not c - 1 - 0 - - - - - c - 1 - 0 - - - - - 0 - 0 - - - - -",
+		"q unsorted 01 c - 1 - 0 - - - - -", "q unsorted -1 c - 2 - 0 - - - - -", "q unsorted -1 c - 1 zz 0 - - - - -",
+		"q unsorted -1 c - 1 - 0 - i 1 2 0 0 - - - -", "q unsorted -1 c - 0 - 0 - i 1 2 0 0 - - - -", "q unsorted 99999999999 c - 1 - 0 - - - - -",
+		"pn " + p + " 10 m1", "pn sha224-00 10 zz", "pn", "cl", "cl " + fake0 + " 5 " + p + " add 746167 78 0",
+		"cl " + fake0 + " 5 " + p + " add 746167 78 1400000000", "cl " + fake0 + " 5 " + p + " mul 746167 78 1400000002",
+		"cl " + fake0 + " 5 " + fake0 + " add 746167 78 1400000002", "del " + fake0 + " 5 " + fake0 + " 1400000002",
+		"bytes " + fake0 + " 3 6162", "bytes " + fake0 + " 2 616", "file " + fake0 + " 5 61 " + fake0 + " 0 -", "dir " + fake0 + " 5 61 " + fake0 + " 5 -",
+		"dir " + fake0 + " 5 61 " + strings.Replace(fake0, "00", "11", 1) + " 5 x,y", "ctime " + fake0 + " 5", "ctime " + p + " 0", "pv " + p, "pv " + p + " -",
+		"times now", "frobnicate 1 2", "Q unsorted -1 c - 1 - 0 - - - - -",
+	}
+	for _, l := range lines {
+		b.Raw(l)
+	}
+	b.Raw("times")
+	b.Raw("pv " + p + " " + hx("tag"))
+	b.Raw("q unsorted -1 c - 1 - 0 - - - - -")
+}
+
+func Run(r *hk.Run) {
+	r.Res.Rule = "a (world, constraint, sort, limit) query counts as non-trivial when the constraint is valid, of a documented shape, " +
+		"not constant on the world (the reference evaluator matches some but not all blobs) and the sort is supported for it; " +
+		"distinct by (constraint, sort, limit, world size)"
+	probes(r)
+	malformed(r)
+	worlds, consPer, maxDepth := 110, 5, 3
+	if r.Thorough() {
+		worlds, consPer, maxDepth = 1500, 7, 4
+	}
+	limits := []int{1, 2, 3, -1}
+	for wi := 0; wi < worlds; wi++ {
+		c := newCase(r, "world")
+		GenWorld(r.R, c.b, r.Thorough() && wi%3 == 0)
+		if len(c.b.Bad) > 0 {
+			r.Fail("world-build", strings.Join(c.b.Bad, "; "), "ok", "", r.CaseOps())
+			continue
+		}
+		mw := c.b.MW
+		r.Hit(fmt.Sprintf("world-blobs:%02d-%02d", len(mw.Blobs)/10*10, len(mw.Blobs)/10*10+9))
+		c.b.Raw("times")
+		for _, pn := range mw.PNs {
+			if r.R.Chance(40) {
+				c.b.Raw("pv " + pn + " " + hx(r.R.Pick([]string{"tag", "camliMember", "camliNodeType", "n", "camliContent"})))
+			}
+		}
+		for k := 0; k < consPer; k++ {
+			depth := maxDepth
+			if k == 0 {
+				depth = 4
+			}
+			cons, class := GenCons(r.R, mw, depth)
+			r.Hit("cons:" + class)
+			if ScratchRisk(cons) {
+				r.Hit("cons-region:valueinset-over-attr")
+			}
+			if RContainsSiblings(cons) {
+				r.Hit("cons-region:recursivecontains-with-siblings")
+			}
+			if HasRelation(cons) {
+				r.Hit("cons-region:relation")
+			}
+			lims := limits
+			if r.R.Chance(20) {
+				lims = []int{1, 2, 3, 0}
+			}
+			for _, s := range allSorts {
+				for _, l := range lims {
+					c.query(s, l, cons, class)
+				}
+			}
+			if k == 0 {
+				r.Sample(map[string]any{"blobs": len(mw.Blobs), "claims": len(mw.Claims), "constraint": trunc(cons.Words(), 200), "class": class})
+			}
+		}
+	}
+}
